@@ -29,7 +29,6 @@ Notation kern0 := (kern0 RO).
 Notation ghyp_loc := (ghyp_loc RO).
 Notation ghyp_sing_val := (ghyp_sing_val RO).
 Notation masked := (masked RO).
-Notation lap_hyp_dense := (lap_hyp_dense RO).
 
 (* sum_c sum_r sum_s C_c[r,I] * V[r,s] * C'_c[s,J] *)
 Definition congr3 (n : nat) (Pm Qm : nat -> nat -> nat -> A) (V : nat -> nat -> A) (I J : nat) : A :=
@@ -120,14 +119,6 @@ Proof.
 Qed.
 
 (* ---------- the dense matrices: regular part over all pairs of the (same) grid ++ singular part ---------- *)
-Definition scalar_dense (g : geom) (st ss : space) quad (kr ks : @kernel A) Et Es pairs :=
-  scalar_regular RO g g st ss quad kr true Et Es ++ scalar_singular RO g st ss ks pairs.
-Definition helm_hyp_dense (g : geom) (st ss : space) quad (kr ks : @kernel A) k Et Es pairs :=
-  helm_hyp_regular RO g g st ss quad kr true k Et Es ++ helm_hyp_singular RO g st ss ks k pairs.
-Definition modhelm_hyp_dense (g : geom) (st ss : space) quad (kr ks : @kernel A) k Et Es pairs :=
-  modhelm_hyp_regular RO g g st ss quad kr true k Et Es ++ modhelm_hyp_singular RO g st ss ks k pairs.
-Definition efield_dense (g : geom) (st ss : space) quad (kr ks : @kernel A) mik ik Et Es pairs :=
-  efield_regular RO g g st ss quad kr true mik ik Et Es ++ efield_singular RO g st ss ks mik ik pairs.
 
 Theorem hyp_dense_decomposition :
   forall (g : geom) (st ss : space) quad (kr ks : @kernel A) (Et Es : list nat) (pairs : list (@spair A))
@@ -135,13 +126,13 @@ Theorem hyp_dense_decomposition :
   is_p1 st -> is_p1 ss ->
   (forall e, In e Et -> (e < nE)%nat) -> (forall f, In f Es -> (f < nE)%nat) ->
   (forall pr, In pr pairs -> (sp_e pr < nE)%nat /\ (sp_f pr < nE)%nat) ->
-  let V0 := fun r s => ent r s (scalar_dense g (dp0_of RO st) (dp0_of RO ss) quad kr ks Et Es pairs) in
-  let V1 := fun r s => ent r s (scalar_dense g (dp1_of RO st) (dp1_of RO ss) quad kr ks Et Es pairs) in
-  ent I J (helm_hyp_dense g st ss quad kr ks k Et Es pairs) =
+  let V0 := fun r s => ent r s (scalar_dense RO g (dp0_of RO st) (dp0_of RO ss) quad kr ks Et Es pairs) in
+  let V1 := fun r s => ent r s (scalar_dense RO g (dp1_of RO st) (dp1_of RO ss) quad kr ks Et Es pairs) in
+  ent I J (helm_hyp_dense RO g st ss quad kr ks Et Es pairs k) =
     congr3 nE (Cmat g st) (Cmat g ss) V0 I J - (k * k) * congr3 (3 * nE) (Nmat g st) (Nmat g ss) V1 I J
-  /\ ent I J (modhelm_hyp_dense g st ss quad kr ks k Et Es pairs) =
+  /\ ent I J (modhelm_hyp_dense RO g st ss quad kr ks Et Es pairs k) =
     congr3 nE (Cmat g st) (Cmat g ss) V0 I J + (k * k) * congr3 (3 * nE) (Nmat g st) (Nmat g ss) V1 I J
-  /\ ent I J (lap_hyp_dense g st ss quad kr ks Et Es pairs) =
+  /\ ent I J (lap_hyp_dense RO g st ss quad kr ks Et Es pairs) =
     congr3 nE (Cmat g st) (Cmat g ss) V0 I J.
 Proof.
   intros g st ss quad kr ks Et Es pairs nE k I J Hst Hss HEt HEs Hp V0 V1.
@@ -190,9 +181,9 @@ Theorem efield_dense_decomposition :
   s_nshape st = 3%nat -> s_nshape ss = 3%nat ->
   (forall e, In e Et -> (e < nE)%nat) -> (forall f, In f Es -> (f < nE)%nat) ->
   (forall pr, In pr pairs -> (sp_e pr < nE)%nat /\ (sp_f pr < nE)%nat) ->
-  let V0 := fun r s => ent r s (scalar_dense g (dp0_of RO st) (dp0_of RO ss) quad (kern0 kr) (kern0 ks) Et Es pairs) in
-  let V1 := fun r s => ent r s (scalar_dense g (dp1_of RO st) (dp1_of RO ss) quad (kern0 kr) (kern0 ks) Et Es pairs) in
-  ent I J (efield_dense g st ss quad kr ks mik ik Et Es pairs) =
+  let V0 := fun r s => ent r s (scalar_dense RO g (dp0_of RO st) (dp0_of RO ss) quad (kern0 kr) (kern0 ks) Et Es pairs) in
+  let V1 := fun r s => ent r s (scalar_dense RO g (dp1_of RO st) (dp1_of RO ss) quad (kern0 kr) (kern0 ks) Et Es pairs) in
+  ent I J (efield_dense RO g st ss quad kr ks Et Es pairs mik ik) =
     mik * congr3 (3 * nE) (Rmat g st) (Rmat g ss) V1 I J - rinv ik * congr1 nE (Dmat g st) (Dmat g ss) V0 I J.
 Proof.
   intros g st ss quad kr ks Et Es pairs nE mik ik I J Hinv Hnt Hns HEt HEs Hp V0 V1.
@@ -221,7 +212,7 @@ Theorem hyp_constants_in_kernel :
      s_nshape ss = 3%nat ->
      (forall f j, (j < 3)%nat -> s_mult ss f j = r1) ->
      (forall f j, (j < 3)%nat -> (s_l2g ss f j < n)%nat) ->
-     matvec r0 radd rmul n (fun I J => ent I J (lap_hyp_dense g st ss quad kr ks Et Es pairs)) (fun _ => r1) I = r0).
+     matvec r0 radd rmul n (fun I J => ent I J (lap_hyp_dense RO g st ss quad kr ks Et Es pairs)) (fun _ => r1) I = r0).
 Proof.
   repeat split.
   - apply lap_hyp_loc_rowsum.
@@ -266,10 +257,6 @@ End C06.
 
 Arguments congr3 {A} RO.
 Arguments congr1 {A} RO.
-Arguments scalar_dense {A} RO.
-Arguments helm_hyp_dense {A} RO.
-Arguments modhelm_hyp_dense {A} RO.
-Arguments efield_dense {A} RO.
 
 (* ---------- instances: the hypotheses are satisfiable ---------- *)
 Definition Zops : ops Z := mk_ops 0%Z 1%Z Z.add Z.mul Z.sub Z.opp (fun _ => 0%Z).
